@@ -214,7 +214,7 @@ def run_case(case, t: Tally, verbose=False):
 
 
 def all_cases(thorough):
-    return cases(4 if thorough else 3, thorough)
+    return cases(5 if thorough else 4, thorough)
 
 
 def chunk_fn(chunk):
@@ -226,7 +226,7 @@ def chunk_fn(chunk):
 
 def run(ctx):
     stacks.client_hello("origin.test")  # built once in the parent: identical bytes in every worker
-    maxlen = ctx.pick(3, 4)
+    maxlen = ctx.pick(4, 5)
     cs = cases(maxlen, ctx.thorough)
     ctx.bounds = {"modes": list(MODES), "upstream_auth": ["set", "unset"], "connection_strategy": ["eager", "lazy"],
                   "proxy_mode_alphabet": PROXY_ALPHABET + ["inner (after a CONNECT)"], "max_sequence_length": maxlen, "cases": len(cs)}
